@@ -2207,3 +2207,16 @@ M("c15-multi-flush-last-result-wins", "C15", "m3/thriftudp/multitransport.go",
   "		if err := trans.Flush(); err != nil && firstErr == nil {\n			firstErr = err\n		}", "		firstErr = trans.Flush()", expect="O5 fan-out")
 M("c15-multi-flush-error-swallowed", "C15", "m3/thriftudp/multitransport.go",
   "		if err := trans.Flush(); err != nil && firstErr == nil {\n			firstErr = err\n		}", "		_ = trans.Flush()", expect="O5 fan-out")
+M("c06-empty-allowlist-passthrough", "C06", "sanitize.go",
+  "func (c *ValidCharacters) sanitizeFn(repChar rune) SanitizeFn {\n", "func (c *ValidCharacters) sanitizeFn(repChar rune) SanitizeFn {\n	if len(c.Ranges) == 0 && len(c.Characters) == 0 {\n		return NoOpSanitizeFn\n	}\n", expect="O3 sanitizer-table")
+M("c19-empty-multi-is-null-reporter", "C19", "multi/reporter.go",
+  "func NewMultiReporter(\n	r ...tally.StatsReporter,\n) tally.StatsReporter {\n", "func NewMultiReporter(\n	r ...tally.StatsReporter,\n) tally.StatsReporter {\n	if len(r) == 0 {\n		return tally.NullStatsReporter\n	}\n", expect="O1 constructor")
+M("c17-overflow-bucket-at-lower-bound", "C17", "prometheus/reporter.go",
+  "	return cachedHistogramBucket{m, bucketUpperBound}", "	if bucketUpperBound > 1e300 {\n		return cachedHistogramBucket{m, bucketLowerBound}\n	}\n	return cachedHistogramBucket{m, bucketUpperBound}", expect="O4 bucket-bound")
+M("c15-write-adopts-caller-slice", "C15", "m3/thriftudp/transport.go",
+  "	n, err := p.writeBuf.Write(buf)", "	if p.writeBuf.Len() == 0 && len(buf) >= 4096 {\n		p.writeBuf = *bytes.NewBuffer(buf)\n		return len(buf), nil\n	}\n	n, err := p.writeBuf.Write(buf)", expect="O2 own-buffer")
+M("c03-report-only-first-64-buckets", "C03", "stats.go",
+  "func (h *histogram) cachedReport() {\n", "func (h *histogram) cachedReport() {\n	if len(h.buckets) > 64 {\n		return\n	}\n", expect="bucket-coverage")
+M("c02-registry-pass-trylock", "C02", "scope_registry.go",
+  "func (r *scopeRegistry) CachedReport() {\n", "func (r *scopeRegistry) CachedReport() {\n	if !reportGate.TryLock() {\n		return\n	}\n	defer reportGate.Unlock()\n", expect="O5 registry-coverage",
+  more=[("scope_registry.go", "func (r *scopeRegistry) CachedReport() {", "var reportGate sync.Mutex\n\nfunc (r *scopeRegistry) CachedReport() {")])
